@@ -100,6 +100,7 @@ def operations(kind: str, n_tags: int) -> List[tuple]:
     for i in range(2):
         for tag in tags:
             ops.append(('save', i, tag))
+        ops.append(('save_bad', i, tags[-1]))
         ops.append(('advance', i))
     for i in range(2):
         for tag in tags:
@@ -172,6 +173,23 @@ class System:
             for (name, (status, value)) in zip(('memory', 'pickle'), res):
                 if status != 'ok':
                     bad.append(('save-raised', {'persister': name, 'id_kind': self.kind}, repr(value)))
+            return bad
+        if kind == 'save_bad':
+            # a save that cannot succeed (the process holds something that can be neither copied nor pickled): whatever
+            # the persisters answer, the store stays what it was
+            import threading
+            proc = self.procs[op[1]]
+            holder = proc.ctx if isinstance(proc, Chain) else proc.outputs
+            holder['unsavable'] = threading.Lock()
+            try:
+                res = both(lambda p: p.save_checkpoint(proc, op[2]))
+            finally:
+                del holder['unsavable']
+            for (name, (status, value)) in zip(('memory', 'pickle'), res):
+                if status == 'ok':
+                    bad.append(('unsavable-state-saved', {'persister': name, 'id_kind': self.kind}, None))
+            bad.extend(self.apply(('list',)))
+            bad.extend(self.audit('failed-save'))
             return bad
         if kind == 'load':
             key = (pids[op[1]], op[2])
@@ -353,7 +371,7 @@ def run_check(tier: str, seed: int, workers: Any) -> Dict[str, Any]:
         'states': total['states'], 'transitions': total['transitions'], 'traces_validated_against_impl': total['transitions'],
         'evaluations': total['transitions'], 'distinct_nontrivial': total['overwrites'],
         'rule': 'BFS over histories of save(p,tag) / advance(p) / load / continue (recreate a process from the stored '
-                'snapshot and run it to its end, then re-load every stored key) / delete / delete_process / listings on 2 live '
+                'snapshot and run it to its end, then re-load every stored key) / save of a state that cannot be saved / delete / delete_process / listings on 2 live '
                 'processes x tags, for integer, UUID and string ids (ids and tags chosen so that one is a string prefix of '
                 'the other); canonical state = stored (pid, tag) -> snapshot version + progress of the live processes; '
                 'both persisters driven in lock-step and compared with a dictionary model after every operation; '
